@@ -382,8 +382,8 @@ Ltac exec2 spec invval mulval :=
     destruct (spec dbg (mkzp p a0 H0, mkzp p a1 H1)) as (ia & E & M);
     [ intros Ea; apply Hne; apply (f_equal val2) in Ea; exact Ea
     | exists (val2 ia); split;
-      [ rewrite <- (invval dbg (mkzp p a0 H0, mkzp p a1 H1)), E; reflexivity
-      | rewrite <- (mulval (mkzp p a0 H0, mkzp p a1 H1) ia), M; reflexivity ] ]
+      [ pose proof (invval dbg (mkzp p a0 H0, mkzp p a1 H1)) as V; rewrite E in V; symmetry; exact V
+      | pose proof (mulval (mkzp p a0 H0, mkzp p a1 H1) ia) as W; rewrite M in W; symmetry; exact W ] ]
   end.
 Ltac exec3 spec invval mulval :=
   let dbg := fresh "dbg" in let a0 := fresh "a0" in let a1 := fresh "a1" in let a2 := fresh "a2" in
@@ -393,8 +393,8 @@ Ltac exec3 spec invval mulval :=
     destruct (spec dbg (mkzp p a0 H0, mkzp p a1 H1, mkzp p a2 H2)) as (ia & E & M);
     [ intros Ea; apply Hne; apply (f_equal val3) in Ea; exact Ea
     | exists (val3 ia); split;
-      [ rewrite <- (invval dbg (mkzp p a0 H0, mkzp p a1 H1, mkzp p a2 H2)), E; reflexivity
-      | rewrite <- (mulval (mkzp p a0 H0, mkzp p a1 H1, mkzp p a2 H2) ia), M; reflexivity ] ]
+      [ pose proof (invval dbg (mkzp p a0 H0, mkzp p a1 H1, mkzp p a2 H2)) as V; rewrite E in V; symmetry; exact V
+      | pose proof (mulval (mkzp p a0 H0, mkzp p a1 H1, mkzp p a2 H2) ia) as W; rewrite M in W; symmetry; exact W ] ]
   end.
 
 Theorem f64_quad_inv_exec : forall dbg a0 a1, 0 <= a0 < P64 -> 0 <= a1 < P64 -> (a0, a1) <> (0, 0) ->
@@ -417,3 +417,19 @@ Theorem f62_cube_inv_exec : forall dbg a0 a1 a2, 0 <= a0 < P62 -> 0 <= a1 < P62 
   exists ia, c_inv (zp_ops P62) (f62_x3 (zp_ops P62)) dbg (a0, a1, a2) = Some ia /\
              f62_ext3_mul (zp_ops P62) (a0, a1, a2) ia = (1, 0, 0).
 Proof. exec3 f62_cube_inv_spec f62_c_inv_val f62_ext3_mul_val. Qed.
+
+(* ------------------------------------------------------------------ the five extension fields are fields (FLaws) *)
+Theorem f64_quad_laws : FLaws (q_ops F64_ops (f64_x2 F64_ops)).
+Proof. exact (q_laws F64_ops F64_laws _ _ (f64_x2_correct F64_ops F64_laws) f64_disc_nonsquare). Qed.
+Theorem f62_quad_laws : FLaws (q_ops F62_ops (f62_x2 F62_ops)).
+Proof. exact (q_laws F62_ops F62_laws _ _ (f62_x2_correct F62_ops F62_laws) f62_disc_nonsquare). Qed.
+Theorem f128_quad_laws : FLaws (q_ops F128_ops (f128_x2 F128_ops)).
+Proof. exact (q_laws F128_ops F128_laws _ _ (f128_x2_correct F128_ops F128_laws) f128_disc_nonsquare). Qed.
+Theorem f64_cube_laws : FLaws (c_ops F64_ops (f64_x3 F64_ops)).
+Proof.
+  exact (c_laws F64_ops F64_laws _ _ _ _ _ _ _ _ _ (f64_x3_correct F64_ops F64_laws) f64_frob3_consts f64_fix_det f64_cubic_no_root).
+Qed.
+Theorem f62_cube_laws : FLaws (c_ops F62_ops (f62_x3 F62_ops)).
+Proof.
+  exact (c_laws F62_ops F62_laws _ _ _ _ _ _ _ _ _ (f62_x3_correct F62_ops F62_laws) f62_frob3_consts f62_fix_det f62_cubic_no_root).
+Qed.
